@@ -779,6 +779,20 @@ done:
 							}
 						}
 					}
+				case Keyed:
+					keys := tv.Keys()
+					sort.Strings(keys)
+					for _, k := range keys {
+						vv, _ := tv.ValueForKey(k)
+						if tf.matchRoot(data, vv) {
+							if nv, changed := modifier(vv); changed {
+								tv.SetValueForKey(k, nv)
+								if one && changed {
+									break done
+								}
+							}
+						}
+					}
 				default:
 					rv := reflect.ValueOf(tv)
 					switch rv.Kind() {
